@@ -50,6 +50,9 @@ type Net struct {
 	nextCuts  map[string][]pendingCut // cuts for the (skip+1)-th next pipe dialed to addr
 	DialLog   []DialEvent
 	FaultHook func(kind string, pipe int) // called (under the net lock) whenever a fault fires
+	// DeliverHook, when set, is called (under the net lock) after bytes were handed
+	// to a reader: pipe, direction and the stream offset delivered so far.
+	DeliverHook func(pipe int, ws bool, dir string, off int64)
 	Fired     FaultStats
 	Probes    map[string]int
 }
@@ -701,6 +704,9 @@ func (n *Net) deliver(st *stream) {
 		sg.data = sg.data[k:]
 	}
 	st.notify()
+	if n.DeliverHook != nil && k > 0 {
+		n.DeliverHook(st.pipe.ID, st.pipe.WS, st.dir, st.dOff)
+	}
 }
 
 // ---- faults -----------------------------------------------------------------------
